@@ -63,7 +63,7 @@ def hx(a):
 
 
 def anchors(tier):
-    return vlib.tlc("BignVectors", env={"VEC_TIER": tier}, workers=8, timeout=2400 if tier == "quick" else 7200, quiet=True)
+    return vlib.tlc("BignVectors", env={"VEC_TIER": tier}, workers=12, timeout=2400 if tier == "quick" else 7200, quiet=True)
 
 
 # rough cost of a line for the specification (units of one long scalar multiplication): the costly lines go first, so
